@@ -55,8 +55,9 @@ class GB:
         self.k += 1
         return f"{base}_{self.k}"
 
-    def inp(self, name, dt, shape, kind="normal"):
-        self.inputs.append(helper.make_tensor_value_info(name, DT[dt], list(shape)))
+    def inp(self, name, dt, shape, kind="normal", decl=None):
+        """shape: the concrete shape the feeds get; decl: the declared shape when it differs (symbolic dims as strings)"""
+        self.inputs.append(helper.make_tensor_value_info(name, DT[dt], list(decl if decl is not None else shape)))
         self.feeds_spec.append((name, dt, list(shape), kind))
         return name
 
@@ -622,11 +623,15 @@ def build_sdpa(c):
     dt = c["dt"]
     npd = NP[dt]
     B, H, S, T, Dh, Dv = c["B"], c["H"], c["S"], c["T"], c["Dh"], c["Dv"]
-    q = g.inp("q", dt, [B, H, S, Dh], kind="small")
-    k = g.inp("k", dt, [B, T, H, Dh] if c["kfmt"] == "bshd" else [B, H, T, Dh], kind="small")
+    # symdh: the head size (and the query length) are symbolic in the declared shapes (dim_param); the feeds have the sizes above
+    sym = bool(c.get("symdh"))
+    dS, dDh = ("S", "Dh") if sym else (S, Dh)
+    q = g.inp("q", dt, [B, H, S, Dh], kind="small", decl=[B, H, dS, dDh])
+    k = g.inp("k", dt, [B, T, H, Dh] if c["kfmt"] == "bshd" else [B, H, T, Dh], kind="small",
+              decl=[B, T, H, dDh] if c["kfmt"] == "bshd" else [B, H, T, dDh])
     v = g.inp("v", dt, [B, H, T, Dv])
     y = _sdpa_core(g, c, q, k, v, c["kfmt"], npd, B, H, S, T, Dh)
-    g.out(y, dt, [B, H, S, Dv])
+    g.out(y, dt, [B, H, dS, Dv])
     return g
 
 
@@ -1161,7 +1166,7 @@ def parse_lines(out, tag):
 FAM_BUDGET = {"rms": 50, "skipln": 40, "gelu": 40, "softmax": 12, "groupnorm": 10, "rotary": 60, "sdpa": 60, "mha": 110, "gqa": 60}
 
 
-STRATA = ("miss", "sax", "eps", "sln", "form", "split", "mulswap", "axis", "up", "down", "ones", "rot", "inter", "kfmt", "proj", "past")
+STRATA = ("miss", "symdh", "sc", "sax", "eps", "sln", "form", "split", "mulswap", "axis", "up", "down", "ones", "rot", "inter", "kfmt", "proj", "past")
 
 
 def _round_robin(items):
